@@ -346,7 +346,23 @@ def get_value_type_by_c_number(items: [Token]) -> ValueType:
     size = 32
     if postfix in c_64bit_postfix:
         size = 64
-    return ValueType(signed, size)
+
+    # C11 6.4.4.1: The type of an integer constant is the first of the candidate types
+    # in which its value can be represented (int -> long, for hexadecimal constants and
+    # constants with U suffix the unsigned types as well).
+    is_decimal = get_num_base_by_token(items[0]) == 10
+    candidates = [ValueType(signed, size)]
+    if signed and not is_decimal:
+        candidates.append(ValueType(False, size))
+    if size == 32:
+        candidates.append(ValueType(signed, 64))
+        if signed and not is_decimal:
+            candidates.append(ValueType(False, 64))
+    for t in candidates:
+        max_val = (1 << (t.bit_width - 1)) - 1 if t.signed else (1 << t.bit_width) - 1
+        if val <= max_val:
+            return t
+    raise NotImplementedError(f"The number {items[0]}{postfix} does not fit in any integer type.")
 
 
 def get_value_type_by_isa_imm(items: Token) -> ValueType:
